@@ -26,10 +26,11 @@ class Field:
 
 
 class SymByte:
-    __slots__ = ('field', 'i', '_e')
+    __slots__ = ('field', 'i', '_e', 'origin')
 
-    def __init__(self, field=None, i=0, e=None):
+    def __init__(self, field=None, i=0, e=None, origin=None):
         self.field, self.i, self._e = field, i, e
+        self.origin = origin          # (SymChar, byte index, number of bytes) for bytes of an encoded symbolic character
 
     @property
     def e(self):
@@ -101,8 +102,42 @@ class SymBytes:
 
     def decode(self, *a, **k):
         c = self.concrete()
-        if c is None:
-            c = bytes(int(SymInt.mk(_bexpr(b))) if not isinstance(b, int) else b for b in self.items)
+        if c is not None:
+            return c.decode(*a, **k)
+        # bytes produced by SymStr.encode decode back to the same symbolic characters when the span is aligned
+        from .sxstr import SymStr
+        out, run, i, items = [], bytearray(), 0, self.items
+        ok = True
+        while i < len(items):
+            b = items[i]
+            if isinstance(b, int):
+                run.append(b)
+                i += 1
+                continue
+            if run:
+                try:
+                    out.extend(bytes(run).decode('utf-8'))
+                except UnicodeDecodeError:
+                    ok = False
+                    break
+                run = bytearray()
+            o = b.origin
+            if o is None or o[1] != 0 or i + o[2] > len(items) or not all(
+                    isinstance(items[i + j], SymByte) and items[i + j].origin is not None and
+                    items[i + j].origin[0] is o[0] and items[i + j].origin[1] == j for j in range(o[2])):
+                ok = False
+                break
+            out.append(o[0])
+            i += o[2]
+        if ok:
+            if run:
+                try:
+                    out.extend(bytes(run).decode('utf-8'))
+                except UnicodeDecodeError:
+                    ok = False
+        if ok:
+            return SymStr(out)
+        c = bytes(int(SymInt.mk(_bexpr(b))) if not isinstance(b, int) else b for b in self.items)
         return c.decode(*a, **k)
 
     def __repr__(self):
@@ -423,6 +458,12 @@ class SinkStream:
 
     def read(self, *a):       # TdmsWriter treats anything with .read as a file object
         raise io.UnsupportedOperation("read")
+
+    def flush(self):
+        pass
+
+    def fileno(self):         # ndarray.tofile needs a real descriptor: behave like io.BytesIO
+        raise io.UnsupportedOperation("fileno")
 
     def tell(self):
         return len(self.items)
